@@ -205,6 +205,9 @@ func buildSpan(w *World, it Item, fv SpanFV) sdktrace.ReadOnlySpan {
 		ChildSpanCount:       it.ID,
 		Resource:             w.resourceOf(it.R, true),
 		InstrumentationScope: w.scopeOf(it.S),
+		// the stub falls back to the (deprecated) library field for a scope without name, version and
+		// schema URL: give it the same scope so that attributes-only scopes survive the snapshot
+		InstrumentationLibrary: w.scopeOf(it.S),
 	}
 	for _, e := range fv.Events {
 		st.Events = append(st.Events, sdktrace.Event{Name: concStr("ename", e.Name), Time: concTime(r, e.Time),
@@ -242,14 +245,15 @@ func buildZipkinSpans(w *World, batch []Item) []sdktrace.ReadOnlySpan {
 			Name: concStr("name", fv.Name),
 			SpanContext: trace.NewSpanContext(trace.SpanContextConfig{TraceID: mkTID(fv.Idc, it.ID), SpanID: mkSID(fv.Idc, it.ID),
 				TraceFlags: trace.FlagsSampled}),
-			Parent:               parentOf(fv.Parent, it.ID, fv.Idc, trace.TraceState{}),
-			SpanKind:             kindOf(fv.Kind),
-			StartTime:            start,
-			EndTime:              start.Add(pick(r, zDurReps[fv.Dur], "zdur", fv.Dur)),
-			Attributes:           concAttrs(r, "list", "a8"),
-			Status:               sdktrace.Status{Code: codeOf(fv.Code), Description: concStr("msg", fv.Msg)},
-			Resource:             w.resourceOf(it.R, true),
-			InstrumentationScope: w.scopeOf(it.S),
+			Parent:                 parentOf(fv.Parent, it.ID, fv.Idc, trace.TraceState{}),
+			SpanKind:               kindOf(fv.Kind),
+			StartTime:              start,
+			EndTime:                start.Add(pick(r, zDurReps[fv.Dur], "zdur", fv.Dur)),
+			Attributes:             concAttrs(r, "list", "a8"),
+			Status:                 sdktrace.Status{Code: codeOf(fv.Code), Description: concStr("msg", fv.Msg)},
+			Resource:               w.resourceOf(it.R, true),
+			InstrumentationScope:   w.scopeOf(it.S),
+			InstrumentationLibrary: w.scopeOf(it.S),
 		}
 		out[i] = st.Snapshot()
 	}
